@@ -285,6 +285,25 @@ def check(item, tier):
                     r.count('transitions')
                     if abs(gotav - look) > 1e-9 * max(1.0, abs(look)):
                         bad('pbvi_action_value_not_one_step_lookahead', dict(ctx, belief=b, a=a, got=gotav, want=look))
+            # state-revealing kernels: after 4+ expansion rounds (each adds, per belief, its farthest new successor) the belief set
+            # the alpha vectors were computed on contains every vertex reachable from the initial support (<= 3 states)
+            if revealing and minexp >= 3:
+                usedv0 = {tuple(np.round(u, 12)) for u in used}
+                adj0 = ps.adjacency()
+                seen0 = set()
+                st0 = [s_ for s_, p_ in ps.init.items() if p_ > 0]
+                first = True
+                while st0:
+                    u_ = st0.pop()
+                    for v_ in adj0[u_]:
+                        if v_ not in seen0:
+                            seen0.add(v_)
+                            st0.append(v_)
+                for s_ in sorted(seen0):
+                    vert = tuple(1.0 if pomdp.s_of[ls] == s_ else 0.0 for ls in slist)
+                    r.count('transitions')
+                    if vert not in usedv0:
+                        bad('pbvi_belief_set_misses_reachable_vertex', dict(ctx, vertex=s_, used=[list(map(float, u)) for u in used]))
             # fully observable kernels: exact at vertices of the used belief set that are closed
             if revealing and max(js) <= 5 and len(js) == 1:
                 usedv = {tuple(np.round(u, 12)) for u in used}
